@@ -468,7 +468,7 @@ func (p *Prog) Normalise(known map[string]bool, keep func(*ssa.Function) bool) (
 					changed = true
 				}
 			}
-			if (nLoops > 0 || nMaps > 0 || nSpec > 0) && removeDeadCode(fn) {
+			if (inlinedInto[fn] || nLoops > 0 || nMaps > 0 || nSpec > 0) && removeDeadCode(fn) {
 				changed = true
 			}
 			if !changed {
@@ -526,7 +526,12 @@ func (p *Prog) Normalise(known map[string]bool, keep func(*ssa.Function) bool) (
 	filter := func(fs []*ssa.Function) []*ssa.Function {
 		var out []*ssa.Function
 		for _, f := range fs {
-			if wasInlined[f] > 0 && !stillUsed[f] && !isExportedEntry(f) {
+			// (an exported helper too: every function of the pinned tree is known to
+			// the rules, so what is inlined is new code, and a new exported function
+			// that the library itself calls is a composition of the public
+			// primitives it uses — PutSession, FireBefore, … — which applications can
+			// call already; request entry points are referenced as values and stay)
+			if wasInlined[f] > 0 && !stillUsed[f] {
 				continue
 			}
 			out = append(out, f)
